@@ -90,7 +90,8 @@ def generate(seed, tier, focus="frame"):
             if k == 0:
                 d = m[:g.rint(1, len(m) - 1)]
             elif k == 1:
-                d = g.rbytes(1, 40)
+                # junk, or a keep-alive (CRLF, double CRLF, blanks, an empty datagram)
+                d = g.pick([g.rbytes(1, 40), b"\r\n", b"\r\n\r\n", b" ", b"\n", b""])
             elif k == 2:
                 body = g.rbytes(1, 10)
                 d = ("MESSAGE sip:s SIP/2.0\r\nVia: SIP/2.0/UDP h\r\nContent-Length: %d\r\n\r\n" % (len(body) + g.rint(1, 30))).encode() + body
@@ -102,7 +103,7 @@ def generate(seed, tier, focus="frame"):
             e = (" # spec=C10 eq " + exp) if exp else ""
             if k >= 3 and len(d) == len(m):
                 e += " # spec=C10 accepted"
-            lines.append("udpwire send %s # spec=C10 selfrelay1%s" % (hx(d), e))
+            lines.append("udpwire send %s # spec=C10 selfrelay1%s # spec=C07 source" % (hx(d), e))
             g.count("udpwire_kind_%d" % min(k, 3))
     else:
         for i in range(400 if tier == "quick" else 8000):
